@@ -44,7 +44,7 @@ def run(chk: Check):
     chk.mc("MC_Transform.tla", MC, tag="symbolic", expect_actions=["DoTransform", "DoAssign"], workers=8,
            what="x (parameter), y (observed), w (weak): all transform/assign sequences, <= 5 variables")
     traces = T.all_traces(rng, reps=1 if chk.quick else 6)
-    traces += [T.rejected_trace("weak"), T.rejected_trace("nodist")]
+    traces += [T.rejected_trace("weak"), T.rejected_trace("nodist"), T.rejected_trace("frozen")]
     chk.tv("Trace_Transform.tla", traces, tag="pairs", cfg_extra=TV_CFG,
            nontrivial=lambda t: any(e["ev"] == "assign" and e["target"] != "x_transformed" for e in t["ev"]),
            keyfn=lambda r: f"{r.trace['hdr']['mode']}:{r.conjunct}",
